@@ -189,8 +189,8 @@ TEXT = {
           "the enumeration of monic polynomials over F_p is complete (monics_complete), the division test is the divisibility of "
           "(Z/p)[X] (divMod_zero_iff), no monic divisor of degree <= deg/2 means irreducible (irreducibleFp_sound), and a primitive "
           "integer polynomial whose leading coefficient survives and whose reduction is irreducible is irreducible "
-          "(C05_irreducible_of_mod_p; also degree one: C05_irreducible_of_degree_one). Not formalised: Kronecker's search (the other "
-          "verdict) and the use of unique factorization.",
+          "(C05_irreducible_of_mod_p; also degree one: C05_irreducible_of_degree_one). Unique factorization in Z[X] as used for the comparison with the blocks is "
+          "C05_factorization_unique. Not formalised: Kronecker's search (the fallback verdict).",
   "design_ref": "5.5",
   "note": "found and fixed: lp_upolynomial_factor over Z with a non-monic primitive part returned reducible factors (former known finding D28, repaired by the monic transformation); two memory leaks in the Z factorization",
   "technique": "Lean 4 proved certificate soundness (product homomorphism, Bezout => squarefree / coprime) + per-output validation of the C results",
